@@ -3,7 +3,7 @@ _HARNESS = {
     "files": ["agreement/zz_verif_sm_test.go", "agreement/zz_verif_sm_gen_test.go"],
     "util": [("agreement", "agreement")],
     "env": {"quick": {"VERIF_SM_N": 150, "VERIF_SM_EVENTS": 70, "VERIF_SM_FORKS": 2},
-            "thorough": {"VERIF_SM_N": 3000, "VERIF_SM_EVENTS": 90, "VERIF_SM_FORKS": 2}},
+            "thorough": {"VERIF_SM_N": 1500, "VERIF_SM_EVENTS": 90, "VERIF_SM_FORKS": 2}},
     "timeout": {"quick": 900, "thorough": 3000},
 }
 
@@ -12,7 +12,7 @@ CONFIG = {
     "runner": {"module": "Verif.model.AgreementCheck", "ident": "check_c03"},
     "harness": [_HARNESS],
     "rule": "a REAL rootRouter+player (built as service.mainLoop does for a fresh round) is driven through submitTop with generated event "
-            "scripts (quick 150 x ~70 events, thorough 3000 x ~90): verified/unverified votes of all steps incl. late/redo/down, proposal-votes "
+            "scripts (quick 150 x ~70 events, thorough 1500 x ~90): verified/unverified votes of all steps incl. late/redo/down, proposal-votes "
             "with attached payloads, bundles (with equivocation pairs, short bundles), payloads, timeouts, fast timeouts, round interruptions, "
             "checkpoints, pipelined next-round and stale/old-round messages, equivocators, error/cancel flags; state-aware generator "
             "(steers tallies over thresholds, replays the verify-request/verified round trip) under 6 scenario biases and directed prefixes "
